@@ -219,10 +219,17 @@ func genScenario(t *sim.Tape) *scenario {
 	// identifier magnitudes vary (small, 16-bit "surrogate" range, above 0x10FFFF, above 2^31): code that
 	// derives keys or orderings from the identifier must not depend on its size
 	bigIDs := t.Prob(2, 3, "big_ids")
+	spreadIDs := bigIDs && t.Prob(1, 4, "ids_spread_around_the_circle") // every service of the round a third of 2^32 from the next
 	for i := 0; i < n; i++ {
 		id := types.ServiceID(200001 + i*7)
 		if bigIDs {
-			switch t.Choose(4, "id_class") {
+			cls := t.Choose(5, "id_class")
+			if spreadIDs {
+				cls = 4
+			}
+			switch cls {
+			case 4: // a third of the 32-bit circle apart: no half of the identifier space holds three neighbours
+				id = types.ServiceID(0x0CE7F0A8 + uint32(i)*0x55555555)
 			case 1:
 				id = types.ServiceID(0xD800 + i*3)
 			case 2:
